@@ -34,41 +34,6 @@ def devsets(K):
     return sorted(sets, key=lambda s: (len(s), sorted(s)))
 
 
-def sample(vectors, nshapes, seed, fam):
-    """Every vector of a seeded subset of the method shapes: first a greedy cover of all pairs of attribute features
-    (kind, location, mode, rule, nesting) that occur, then random shapes up to nshapes."""
-    side = "pa" if fam == "req" else "ra"
-    shapes = {}
-    for v in vectors:
-        shapes.setdefault(hg.shape_key(v), v[side][0])
-    keys = sorted(shapes)
-    if len(keys) <= nshapes:
-        return vectors
-    rnd = random.Random(seed)
-    rnd.shuffle(keys)
-    fields = ("kind", "loc", "mode", "rule", "nest")
-
-    def pairs(a):
-        return {(f, a[f], g, a[g]) for i, f in enumerate(fields) for g in fields[i + 1:]}
-    todo = set()
-    for k in keys:
-        todo |= pairs(shapes[k])
-    keep = []
-    while todo:
-        best = max(keys, key=lambda k: len(pairs(shapes[k]) & todo))
-        gain = pairs(shapes[best]) & todo
-        if not gain:
-            break
-        keep.append(best)
-        todo -= gain
-    chosen = set(keep)
-    for k in keys:
-        if len(chosen) >= nshapes:
-            break
-        chosen.add(k)
-    return [v for v in vectors if hg.shape_key(v) in chosen]
-
-
 def xb(v):
     return any(a["rule"] in ("xmin", "xmax") for a in v["pa"] + v["ra"])
 
@@ -184,23 +149,28 @@ def run(ctx):
     nshapes = int(os.environ.get("VERIF_SHAPES") or (130 if quick else 100000))     # method shapes per family
     nontrivial, pending, traces = set(), [], {}
     nrand = int(os.environ.get("VERIF_RANDOM") or (60 if quick else 1500))
-    with cf.ThreadPoolExecutor(max_workers=6) as ex:
-        gens = {fam: ex.submit(osx.gen_vectors, ctx, fam, None, 4) for fam in ("req", "res")}
-        gs = [ex.submit(ctx.mc_expect_violation, "mc/MC_OpenAPIOps", "mc/MC_OpenAPIOps_schema.cfg", workers=3,
-                        consts={"Family": '"%s"' % fam, "Deviations": '{"%s"}' % d}, label="MC dev " + d, timeout=900) for d, fam in guards]
-        for g in gs:
-            g.result()
-        # (G)
-        groups = []
-        for fam in ("req", "res"):
-            vectors = sample(gens[fam].result(), nshapes, ctx.seed, fam)
-            groups.append((fam, [v for v in vectors if not xb(v)]))
-            groups.append((fam, [v for v in vectors if xb(v)]))         # designs of their own: their documents may not load
+    ex = cf.ThreadPoolExecutor(max_workers=4)
+    gs = [ex.submit(ctx.mc_expect_violation, "mc/MC_OpenAPIOps", "mc/MC_OpenAPIOps_schema.cfg", workers=2,
+                    consts={"Family": '"%s"' % fam, "Deviations": '{"%s"}' % d}, label="MC dev " + d, timeout=900) for d, fam in guards]
+    # (G) quick: a sample of the method shapes (all pairs of features covered), every value of each; thorough: everything
+    def family(fam):
+        if quick:
+            return osx.gen_vectors(ctx, fam, workers=3, shapes=osx.sample_shapes(osx.gen_shapes(ctx, fam), nshapes, ctx.seed))
+        return osx.gen_vectors(ctx, fam, workers=6)
+    ex2 = cf.ThreadPoolExecutor(max_workers=4)
+    gens = {fam: ex2.submit(family, fam) for fam in ("req", "res")}
     # (J) random exchanges beyond the enumeration: two attributes per method, drawn by TLC in simulation mode
-    for fam, npa, nra in (("req", 2, 1), ("res", 1, 2)):
-        rv = osx.gen_vectors(ctx, fam, npa=npa, nra=nra, simulate=nrand)
+    rands = [(fam, ex2.submit(osx.gen_vectors, ctx, fam, None, 1, npa, nra, nrand)) for fam, npa, nra in (("req", 2, 1), ("res", 1, 2))]
+    groups = []
+    for fam in ("req", "res"):
+        vectors = gens[fam].result()
+        groups.append((fam, [v for v in vectors if not xb(v)]))
+        groups.append((fam, [v for v in vectors if xb(v)]))         # designs of their own: their documents may not load
+    for fam, fut in rands:
+        rv = fut.result()
         groups.append((fam, [v for v in rv if not xb(v)]))
         groups.append((fam, [v for v in rv if xb(v)]))
+    ex2.shutdown()
     cases, pl = osx.run_exchanges(ctx, [g for g in groups if g[1]])
     verd = osx.verdicts_for(ctx, cases, pl)
     for fam in ("req", "res"):
@@ -253,6 +223,9 @@ def run(ctx):
     # declared-error responses (C07 designs of the response family)
     err_traces = error_responses(ctx, K, quick)
     ctx.cov["distinct_nontrivial"] = len(nontrivial)
+    for g in gs:          # the vacuity guards ran beside the pipeline
+        g.result()
+    ex.shutdown()
     # (J) trace validation
     traces.setdefault((1, 1), []).extend(err_traces)
     nlines = 0
@@ -269,16 +242,16 @@ def run(ctx):
 
 def report(ctx, fam, side, c, sv, what, keys, alone=None):
     v, o = c["v"], c["obs"]
-    a = (v["pa"] if fam == "req" else v["ra"])[0]
-    val = (v["pv"] if fam == "req" else v["rv"])[0]
+    attrs, vals = (v["pa"], v["pv"]) if fam == "req" else (v["ra"], v["rv"])
     flag = v.get("flag", "none")
-    desc = "%s attribute %s value %s%s: %s (uri %s, server %s/%s, schema req=%s resp=%s)" % (
-        "request" if fam == "req" else "result", hc.attr_tag(a), hc.val_tag(val), " [null]" if flag == "null" else "", what, o.get("uri"), o["status"], o["errname"],
-        sv["req"], sv["resp"])
+    desc = "%s attribute(s) %s value(s) %s%s: %s (uri %s, server %s/%s, schema req=%s resp=%s)" % (
+        "request" if fam == "req" else "result", " + ".join(hc.attr_tag(a) for a in attrs), " + ".join(hc.val_tag(x) for x in vals),
+        " [%s]" % flag if flag != "none" else "", what, o.get("uri"), o["status"], o["errname"], sv["req"], sv["resp"])
     case = {"vector": {k: v[k] for k in ("fam", "pa", "ra", "tagged", "pv", "rv", "flag", "raw", "allow") if k in v}, "observed": {k: o[k] for k in ("invoked", "status", "errname", "uri")},
             "schema": {k: sv.get(k) for k in ("req", "resp", "err", "rerr")}, "events": c["events"], "alone": alone}
     if not keys:
-        keys = ["C14/%s/%s/%s/%s" % (side, hc.attr_tag(a), val_class(a, val) + ("+null" if flag == "null" else ""), what)]
+        tag = "+".join("%s/%s" % (hc.attr_tag(a), val_class(a, x)) for a, x in zip(attrs, vals))
+        keys = ["C14/%s/%s%s/%s" % (side, tag, "+" + flag if flag != "none" else "", what)]
         ctx.violation(keys[0], desc, case)
         return
     for k in keys:
